@@ -396,7 +396,7 @@ def run_case(case, ctx):
         _refine_remove(case, ctx)
     elif m == 'bfs':
         sysm = HistSystem(case['kind'], ctx.seed)
-        st = X.bfs(sysm, ctx, case['depth'], deadline=time.time() + (200 if ctx.tier == 'quick' else 2000),
+        st = X.bfs(sysm, ctx, case['depth'], deadline=time.time() + (500 if ctx.tier == 'quick' else 3000),
                    prefix=case.get('prefix'), expand=case.get('prefix') is not None, label='hist/' + case['kind'])
         for k in ('states', 'transitions', 'merged', 'determinism_checks'):
             ctx.extra['bfs_' + k] += st[k]
